@@ -344,14 +344,53 @@ func (e *Enc) fresh(prefix string, t types.Type) *Term {
 }
 
 func (e *Enc) assumeWF(guard *Term, t types.Type, term *Term) {
-	if e.wfDone[term.id] {
+	if e.wfDone[term.id] || term.bound {
 		return
 	}
 	e.wfDone[term.id] = true
 	if wf := e.wf(t, term, 0); !e.tb.isTrue(wf) {
 		e.assume(e.tb.True(), wf) // type invariants hold unconditionally for well-typed values
 	}
+	// values read from the entry heap (or parameters) refer to objects that existed at entry: refs >= 0
+	if isEntryRead(term) {
+		if c := e.entryRefs(t, term, 0); !e.tb.isTrue(c) {
+			e.assume(e.tb.True(), c)
+		}
+	}
 	_ = guard
+}
+
+// isEntryRead: the term is a projection / select chain over an entry-heap register constant or a parameter.
+func isEntryRead(t *Term) bool {
+	for len(t.args) > 0 {
+		if t.op != "select" && !strings.Contains(t.op, ".f") && !strings.HasPrefix(t.op, "s.") {
+			return false
+		}
+		t = t.args[0]
+	}
+	return strings.HasPrefix(t.op, "H0_") || strings.HasPrefix(t.op, "p_")
+}
+
+// entryRefs: every reference inside a value that existed at entry denotes nil or an object allocated before entry.
+func (e *Enc) entryRefs(t types.Type, term *Term, depth int) *Term {
+	tb := e.tb
+	if depth > 3 {
+		return tb.True()
+	}
+	switch u := t.Underlying().(type) {
+	case *types.Pointer, *types.Map, *types.Chan:
+		return tb.Ge(term, tb.Int(0))
+	case *types.Slice:
+		return tb.Ge(tb.SRef(term), tb.Int(0))
+	case *types.Struct:
+		s := e.structSortOf(t, u)
+		var cs []*Term
+		for i := 0; i < u.NumFields(); i++ {
+			cs = append(cs, e.entryRefs(u.Field(i).Type(), tb.Field(s, i, term), depth+1))
+		}
+		return tb.And(cs...)
+	}
+	return tb.True()
 }
 
 // ---------- heap registers ----------
